@@ -22,7 +22,7 @@ type propSpec struct {
 }
 
 func defaultBudget(h string, tier int) budget {
-	b := budget{Budgets: interp.Budgets{MaxSteps: 3_000_000, MaxDepth: 300, MaxDecisions: 5000}, SolverTimeoutMs: 10000, WallS: 170}
+	b := budget{Budgets: interp.Budgets{MaxSteps: 3_000_000, MaxDepth: 300, MaxDecisions: 5000}, SolverTimeoutMs: 10000, WallS: 400}
 	if tier == 1 {
 		b.SolverTimeoutMs = 60000
 		b.WallS = 2700
@@ -59,14 +59,14 @@ func (p propSpec) allowUnsupported(h string) bool {
 var properties = map[string]propSpec{
 	"C01": {
 		Bounds: [2]map[string]any{
-			{"rows": "0..3 (comparison), 0..2 (boolean shapes, IN, BETWEEN, strings), 0..1 (LIKE)", "constants": "any finite non-negative float64 literal / any string ≤2 bytes", "cells": "any non-NaN float64; any byte string ≤2 (≤3 for LIKE subjects over a pattern-derived alphabet)", "predicates": "6 comparison operators × both orientations, negative and computed comparands; 6 boolean shapes × 36 operator pairs; [NOT] IN lists of 1..3 and IN over a root subquery of 0..2 rows; [NOT] BETWEEN (numbers, strings); 30 LIKE patterns × [NOT] plus every LIKE pattern ≤3 bytes over {a b % _ .} against every subject ≤2 bytes over {a b A .}; 6 IS forms; grammar-generated predicates: one or two atoms (comparison, [NOT] IN, [NOT] BETWEEN, IS [NOT] NULL) under NOT / AND / OR on 0..1 rows with a nullable column"},
+			{"rows": "0..3 (comparison), 0..2 (boolean shapes, IN, BETWEEN, strings), 0..1 (LIKE)", "constants": "any finite non-negative float64 literal / any string ≤2 bytes", "cells": "any non-NaN float64; any byte string ≤2 (≤3 for LIKE subjects over a pattern-derived alphabet)", "predicates": "6 comparison operators × both orientations, negative and computed comparands; 6 boolean shapes × 36 operator pairs; [NOT] IN lists of 1..3 and IN over a root subquery of 0..2 rows; [NOT] BETWEEN (numbers, strings); 30 LIKE patterns × [NOT] plus every LIKE pattern ≤3 bytes over {a b % _ .} against every subject ≤2 bytes over {a b A .}; 6 IS forms; 9 spellings of one constant under every operator, IN, NOT IN, BETWEEN; tables given as []any, []Map, []map[string]any; grammar-generated predicates: one or two atoms (comparison, [NOT] IN, [NOT] BETWEEN, IS [NOT] NULL) under NOT / AND / OR on 0..1 rows with a nullable column"},
 			{"rows": "one more row in every harness", "constants": "same", "cells": "same", "predicates": "same; grammar: 0..2 rows, and three-atom predicates (p con q) con r on 0..1 rows"},
 		},
 		Outside: []string{"predicates outside the template list (depth > 3)", "LIKE patterns outside the 30 listed", "negative literals (the parser turns them into unary minus; covered under C02)", "NaN cells", "mixed-kind columns", "IN over a subquery (covered under C07)"},
 	},
 	"C02": {
 		Bounds: [2]map[string]any{
-			{"rows": "0..2 (0..1 nested)", "operands": "any non-NaN float64; for DIV % & | ^ << >> ~ |operand| < 2^62, divisor/modulus non-zero, any non-negative shift count", "expressions": "+ - * / on columns and constants, nesting depth 2, 4 precedence/associativity forms, unary - ~ !, CASE with 1-2 WHEN and optional ELSE, 6 key-set forms; 18 literal spellings (leading zeros, exponents, bare fractions, beyond int64) × sign"},
+			{"rows": "0..2 (0..1 nested)", "operands": "any non-NaN float64; for DIV % & | ^ << >> ~ |operand| < 2^62, divisor/modulus non-zero, any non-negative shift count", "expressions": "+ - * / on columns and constants, nesting depth 2, 4 precedence/associativity forms, unary - ~ !, CASE with 1-2 WHEN and optional ELSE, 6 key-set forms; 18 literal spellings (leading zeros, exponents, bare fractions, beyond int64) × sign; 15 clause templates over tables with mixed-case / upper-case column names against the lower-case spelling"},
 			{"rows": "0..3", "operands": "same", "expressions": "same"},
 		},
 		Outside: []string{"operands outside ±2^62 for the integer operators", "division by zero", "expression depth > 2", "math.Mod is an uninterpreted function on symbolic operands (except x mod 1, encoded exactly)"},
@@ -122,7 +122,7 @@ var properties = map[string]propSpec{
 	},
 	"C10": {
 		Bounds: [2]map[string]any{
-			{"queries": "36 + 32 malformed/unsupported/failing templates (INTO joins with unmatched rows, AWAIT forms, dual, selector functions and pipes in FROM, type-confused operands) × option combinations on a small symbolic document; every built-in function × 14 argument lists (wrong counts, wrong kinds, NULL) × {plain, ASYNC, SPIN, ONCE, SPINASYNC, GLOBAL, SCOPED} × {select list, WHERE}; single-character mutants (9 replacements or deletion at every position) of every fourth listed query", "preprocessors": "every byte string ≤5 over {\" ' ` \\ [ ] a 0xC3}", "goroutines": "ASYNC/SPIN/SPINASYNC calls of failing and panicking functions, PARALLEL joins with failing ON: every schedule with ≤1 preemption"},
+			{"queries": "36 + 32 malformed/unsupported/failing templates (INTO joins with unmatched rows, AWAIT forms, dual, selector functions and pipes in FROM, type-confused operands) × option combinations on a small symbolic document; every built-in function × 14 argument lists (wrong counts, wrong kinds, NULL) × {plain, ASYNC, SPIN, ONCE, SPINASYNC, GLOBAL, SCOPED} × {select list, WHERE}; every listed query executed three times on one Query object with and without WithVars; single-character mutants (9 replacements or deletion at every position) of every fourth listed query", "preprocessors": "every byte string ≤5 over {\" ' ` \\ [ ] a 0xC3}", "goroutines": "ASYNC/SPIN/SPINASYNC calls of failing and panicking functions, PARALLEL joins with failing ON: every schedule with ≤1 preemption"},
 			{"queries": "same; mutants of every listed query", "preprocessors": "≤7 bytes", "goroutines": "same"},
 		},
 		Outside: []string{"sqlparser.Parse on arbitrary bytes: the generated LALR parser is not encodable, so 'all byte strings as queries' is covered only through the template list"},
